@@ -1335,7 +1335,12 @@ func (se *SessionExecutor) handleShow(reqCtx *util.RequestContext, sql string) (
 		reqCtx.SetFromSlave(true)
 	}
 	// handle show variables like '%read_only%' default to master
-	if strings.Contains(sql, readonlyVariable) && se.GetNamespace().IsAllowWrite(se.user) {
+	if strings.Contains(strings.ToLower(sql), readonlyVariable) && se.GetNamespace().IsAllowWrite(se.user) {
+		reqCtx.SetFromSlave(false)
+	}
+	// handle master hint: /*master*/ show ..., show /*master*/ ..., show ... /*master*/
+	if len(tokens) > 1 && se.GetNamespace().IsAllowWrite(se.user) &&
+		(util.LowerEqual(tokens[1], masterHint) || util.LowerEqual(tokens[len(tokens)-1], masterHint)) {
 		reqCtx.SetFromSlave(false)
 	}
 	r, err := se.ExecuteSQL(reqCtx, se.GetNamespace().GetDefaultSlice(), se.db, sql)
